@@ -221,4 +221,77 @@ theorem moveCisTrans_ids (env : StereoEnv) (isH : Nat → Bool) : ∀ (ct : List
     · exact ih m m' h
     · cases h
 
+/-- a labelled adjacency entry after `setBondLabel m n k sg`: it is the bond `n–k` with `sg`, or it was labelled before -/
+theorem setBondLabel_entry (m : Mol) (n k : Nat) (sg : Bool) (x : Nat) (nb : List (Nat × Bond)) (y : Nat) (b : Bond) (s : Bool)
+    (hx : (x, nb) ∈ (setBondLabel m n k sg).adj) (hy : (y, b) ∈ nb) (hs : b.stereo = some s) :
+    (((n = x ∧ k = y) ∨ (n = y ∧ k = x)) ∧ sg = s) ∨ (∃ nb0 b0, (x, nb0) ∈ m.adj ∧ (y, b0) ∈ nb0 ∧ b0.stereo = some s) := by
+  simp only [setBondLabel, List.mem_map] at hx
+  obtain ⟨⟨x0, nb0⟩, hmem, heq⟩ := hx
+  have inner : ∀ t : Nat, (y, b) ∈ (nb0.map fun (yb : Nat × Bond) => if yb.1 == t then (yb.1, { yb.2 with stereo := some sg }) else (yb.1, yb.2)) →
+      (t = y ∧ sg = s) ∨ (∃ b0, (y, b0) ∈ nb0 ∧ b0.stereo = some s) := by
+    intro t hin
+    obtain ⟨⟨y0, b0⟩, hm0, he0⟩ := List.mem_map.mp hin
+    by_cases hyt : (y0 == t) = true
+    · simp only [hyt, if_true, Prod.mk.injEq] at he0
+      obtain ⟨e1, e2⟩ := he0
+      subst e2
+      simp only [Option.some.injEq] at hs
+      have : y0 = t := by simpa using hyt
+      exact .inl ⟨by rw [← this, e1], hs⟩
+    · simp only [hyt, Bool.false_eq_true, if_false, Prod.mk.injEq] at he0
+      obtain ⟨e1, e2⟩ := he0
+      subst e1; subst e2
+      exact .inr ⟨b0, hm0, hs⟩
+  by_cases h1 : (x0 == n) = true
+  · simp only [h1, if_true, Prod.mk.injEq] at heq
+    obtain ⟨e1, e2⟩ := heq
+    subst e1; subst e2
+    have hxn : x0 = n := by simpa using h1
+    rcases inner k hy with ⟨hk, hsg⟩ | ⟨b0, hb0, hs0⟩
+    · exact .inl ⟨.inl ⟨hxn.symm, hk⟩, hsg⟩
+    · exact .inr ⟨nb0, b0, hmem, hb0, hs0⟩
+  · by_cases h2 : (x0 == k) = true
+    · simp only [h1, h2, Bool.false_eq_true, if_false, if_true, Prod.mk.injEq] at heq
+      obtain ⟨e1, e2⟩ := heq
+      subst e1; subst e2
+      have hxk : x0 = k := by simpa using h2
+      rcases inner n hy with ⟨hn, hsg⟩ | ⟨b0, hb0, hs0⟩
+      · exact .inl ⟨.inr ⟨hn, hxk.symm⟩, hsg⟩
+      · exact .inr ⟨nb0, b0, hmem, hb0, hs0⟩
+    · simp only [h1, h2, Bool.false_eq_true, if_false, Prod.mk.injEq] at heq
+      obtain ⟨e1, e2⟩ := heq
+      subst e1; subst e2
+      exact .inr ⟨nb0, b, hmem, hy, hs⟩
+
+/-- a bond label after writing the labels `ls` onto `m` comes from a cis-trans label of `ls` for that pair of atoms, or stood on `m` -/
+theorem foldl_bond_label (ls : List Label) : ∀ (m : Mol) (x : Nat) (nb : List (Nat × Bond)) (y : Nat) (b : Bond) (s : Bool),
+    (x, nb) ∈ (ls.foldl applyLabel m).adj → (y, b) ∈ nb → b.stereo = some s →
+    (∃ l ∈ ls, l.1.kind = .cisTrans ∧ ((l.1.a = x ∧ l.1.b = y) ∨ (l.1.a = y ∧ l.1.b = x)) ∧ l.2 = s) ∨
+    (∃ nb0 b0, (x, nb0) ∈ m.adj ∧ (y, b0) ∈ nb0 ∧ b0.stereo = some s) := by
+  induction ls with
+  | nil => intro m x nb y b s hx hy hs; exact .inr ⟨nb, b, hx, hy, hs⟩
+  | cons l rest ih =>
+    intro m x nb y b s hx hy hs
+    rcases ih (applyLabel m l) x nb y b s hx hy hs with ⟨l', hl', h'⟩ | ⟨nb0, b0, hx0, hy0, hs0⟩
+    · exact .inl ⟨l', List.mem_cons_of_mem _ hl', h'⟩
+    · obtain ⟨⟨k, p, q⟩, sg⟩ := l
+      cases k with
+      | tetra => exact .inr ⟨nb0, b0, by simpa [applyLabel, setAtomStereo] using hx0, hy0, hs0⟩
+      | allene => exact .inr ⟨nb0, b0, by simpa [applyLabel, setAtomStereo] using hx0, hy0, hs0⟩
+      | cisTrans =>
+        rcases setBondLabel_entry m p q sg x nb0 y b0 s (by simpa [applyLabel] using hx0) hy0 hs0 with ⟨hpq, hsg⟩ | h
+        · exact .inl ⟨_, List.mem_cons_self, rfl, hpq, hsg⟩
+        · exact .inr h
+
+theorem clearLabels_no_bond_label (m : Mol) (x : Nat) (nb : List (Nat × Bond)) (y : Nat) (b : Bond) (s : Bool)
+    (hx : (x, nb) ∈ (clearLabels m).adj) (hy : (y, b) ∈ nb) : b.stereo ≠ some s := by
+  simp only [clearLabels, List.mem_map] at hx
+  obtain ⟨⟨x0, nb0⟩, _, heq⟩ := hx
+  simp only [Prod.mk.injEq] at heq
+  obtain ⟨_, e2⟩ := heq
+  subst e2
+  obtain ⟨⟨y0, b0⟩, _, he⟩ := List.mem_map.mp hy
+  simp only [Prod.mk.injEq] at he
+  rw [← he.2]; simp
+
 end ChythonModel.Proofs.C20
